@@ -85,7 +85,7 @@ def run(ctx, rep):
     from rules import C03, C07
     from rules.C10 import borrow
     n = borrow(rep, ctx, C03, lambda o: o.rule == "R-ORDER" and re.search(r"/R-ORDER/(01|02)/", o.key), "C13.b")
-    rep.floor("C13.b", "borrowed obligations", n, 8)
+    rep.floor("C13.b", "borrowed obligations", n, 5)
     n = borrow(rep, ctx, C03, lambda o: o.rule == "R-ORDER" and re.search(r"/R-ORDER/16/", o.key), "C13.c")
     rep.floor("C13.c", "borrowed obligations", n, 5)
     n = borrow(rep, ctx, C07, lambda o: o.rule == "C07.c", "C13.d")
@@ -165,7 +165,7 @@ def termination_rules(ctx, rep):
             rep.check("C13.e", f"{fn_key(b)}/stream-consumer", not bad, where=where(b, bb),
                       what=f"{fn_key(b)}: nothing called while consuming the rendezvous stream waits on the rayon pool" if not bad else
                            f"{fn_key(b)}: inside the loop that drains a zero-capacity stream fed by rayon workers, a rayon parallel operation is started ({bad[0][1]} at {where(b, bad[0][0])}): with every pool thread blocked in send() the job never runs (deadlock on small pools / many files)")
-    rep.floor("C13.e", "loops consuming stream_all/stream_list", n, 5)
+    rep.floor("C13.e", "loops consuming stream_all/stream_list", n, 3)
     # ---- C13.f
     NW = prog.find1(r"^rustic_core::blob::tree::TreeStreamerOnce::new$")
     aggs = [(bi, s_) for bi, blk in enumerate(NW.blocks) for s_ in blk["s"] if s_[0] == "=" and s_[2][0] == "agg" and s_[2][1][0] == "adt" and s_[2][1][1].endswith("tree::TreeStreamerOnce")]
